@@ -16,6 +16,7 @@ output order: omit-tag guard, attributes left to right, then the content.
 """
 from __future__ import annotations
 
+from .gen import RAISING_FORMS
 from .env import (EXISTS_CAUGHT, PIPE_CAUGHT, BadHtml, BadIter, BadSeq, Handler,
                   Html, Probe, default_marker, tcall_record)
 
@@ -140,6 +141,15 @@ class Model:
             except EXISTS_CAUGHT:
                 return 0
             return 1
+        if k == "pyform" and e["form"] in RAISING_FORMS:
+            # (a form that fails before it reaches the probe)
+            cls_, args_ = RAISING_FORMS[e["form"]]
+            exc = cls_(*args_)
+            inner = e["e"]
+            self.fail_stack[id(exc)] = list(self.use_stack)
+            self.fail_info[id(exc)] = (inner.get("id"), self.fn_depth)
+            self.fail_oid[id(exc)] = inner.get("oid")
+            raise exc
         if k in ("python", "pyform"):
             # (the python forms only wrap the probe call: lambdas that are
             # called at once, a one-element comprehension, a tuple index)
